@@ -682,3 +682,9 @@ Proof.
   eexists. split; [vm_compute; reflexivity|]. split; [apply serialise_parse|]. split; [vm_compute; reflexivity|]. split; [vm_compute; reflexivity|]. split; [vm_compute; reflexivity|]. split; [vm_compute; reflexivity|]. split; [vm_compute; reflexivity|]. split; [vm_compute; reflexivity|].
   split; [reflexivity|vm_compute; lia].
 Qed.
+
+(* the registers of the example state come from the x86 register file of the source; a name of another file or a wrong digit count is rejected *)
+Example c15_nonvacuous_regs :
+  regs_from_table 0 (s_registers ex_state) = true /\ regs_from_table 1 (s_registers ex_state) = false /\
+  regs_from_table 0 [([101; 105; 112], 4198400, 16%nat)] = false /\ regs_from_table 1 [([114; 105; 112], 1, 16%nat); ([114; 56], 2, 16%nat)] = true.
+Proof. vm_compute. repeat split; reflexivity. Qed.
